@@ -57,7 +57,7 @@ theorem fista_exit_contract (P : Problem α) (pr : Params α) (stop : Nat → Bo
     rw [hr]
     apply exitBlock_ok
     rw [(headStep_curr P pr stop oot _).1]
-    exact proxStage_good P pr s
+    exact proxStage_good P pr stop s
 
 /-- Feasibility: if the problem's prox step maps into `C` (proved for the shipped box / box+ℓ1 /
     unconstrained steps in `Props/C15`), the written-back `x` is in `C`. -/
@@ -100,8 +100,8 @@ theorem fista_wrote_iff (P : Problem α) (pr : Params α) (stop : Nat → Bool) 
        pr.alwaysOverwrite) := by
   obtain ⟨s, _, _, _, hr⟩ := h
   rw [hr]
-  have := exitBlock_fields P pr (headStep P pr stop oot (proxStage P pr s)).1
-    (headStep P pr stop oot (proxStage P pr s)).2.1 (headStep P pr stop oot (proxStage P pr s)).2.2
+  have := exitBlock_fields P pr (headStep P pr stop oot (proxStage P pr stop s)).1
+    (headStep P pr stop oot (proxStage P pr stop s)).2.1 (headStep P pr stop oot (proxStage P pr stop s)).2.2
     x0 y Sig errz0
   rw [this.1, this.2.1]
 
